@@ -20,7 +20,7 @@ TQuery == Cur("Query") /\ Query /\ state' = E.st /\ StoredOk /\ state' = E.sstat
 PMatch(m, st, acked, data, code) == m.health = st /\ m.acked = acked /\ m.data = data /\ m.code = code
 TProbe == /\ Cur("Probe") /\ Probe(E.kind)
           /\ PMatch(probe'[1], E.st, E.acked, E.data, E.code)
-TProduce2 == /\ Cur("Produce2") /\ \E k \in {1, 2} : (E.nerr = 0 \/ E.nerr = k) /\ Produce2(k)
+TProduce2 == /\ Cur("Produce2") /\ \E k \in {1, 2} : (E.nerr = 0 \/ E.nerr = k) /\ Produce2(k, E.ctx)
              /\ Len(E.items) = 2
              /\ \A i \in 1..2 : PMatch(probe'[i], E.items[i].st, E.items[i].acked, E.items[i].data, E.items[i].code)
 Consumed == TLCSet(7, IF TLCGet(7) < l THEN l ELSE TLCGet(7))
